@@ -73,15 +73,21 @@ package route
 // itself) has it among its cases, so the hooks cannot hold Shutdown beyond the one deadline
 //@ ghost var sdDone int
 //@ ghost var sdDoneSet bool
+// sdRunSeen: the status read at the top of Shutdown was 'running' (otherwise Shutdown reports an error at once)
+//@ ghost var sdRunSeen bool
 //@ func Engine.Shutdown(engine, ctx) err
 //@   props C18
 //@   abstract
 //@   noinline
-//@   modifies sdSwapped, sdDeadline, sdHooks, sdCtx, sdDone, sdDoneSet
+//@   modifies sdSwapped, sdDeadline, sdHooks, sdCtx, sdDone, sdDoneSet, sdRunSeen
 //@   ghostset-at-entry sdSwapped = false
 //@   ghostset-at-entry sdDeadline = false
 //@   ghostset-at-entry sdHooks = false
 //@   ghostset after CompareAndSwapUint32: sdSwapped = result
+//@   assert before CompareAndSwapUint32: arg1 == statusRunning && arg2 == statusShutdown
+//@   ghostset-at-entry sdRunSeen = false
+//@   ghostset after LoadUint32: sdRunSeen = (result == statusRunning)
+//@   top-ensures !sdRunSeen ==> err != nil
 //@   ghostset after WithTimeout: sdDeadline = true
 //@   ghostset after WithTimeout: sdCtx = result0
 //@   ghostset after go: sdHooks = true
@@ -93,6 +99,42 @@ package route
 //@   ghostset after Done: sdDone = result
 //@   ghostset after Done: sdDoneSet = true
 //@   assert before select: sdDoneSet && (arg0 == sdDone || arg1 == sdDone)
+
+// ---- C18 (status machine): initialized -> running only through MarkAsRunning's swap; IsRunning answers true only
+// after it has read 'running'; the shutdown hooks are each started once (its own index) after being added to the
+// wait group, and executeOnShutdownHooks returns only after waiting for the group.
+//@ func Engine.MarkAsRunning(engine) err
+//@   props C18
+//@   abstract
+//@   noinline
+//@   modifies sdSwapped
+//@   assert before CompareAndSwapUint32: arg1 == statusInitialized && arg2 == statusRunning
+//@   ghostset after CompareAndSwapUint32: sdSwapped = result
+//@   top-ensures (err == nil) == sdSwapped
+
+//@ func Engine.IsRunning(engine) r
+//@   props C18
+//@   abstract
+//@   noinline
+//@   modifies sdRunSeen
+//@   ghostset-at-entry sdRunSeen = false
+//@   ghostset after LoadUint32: sdRunSeen = (result == statusRunning)
+//@   top-ensures r ==> sdRunSeen
+
+//@ ghost var hkAdded bool
+//@ ghost var hkWaited bool
+//@ func Engine.executeOnShutdownHooks(engine, ctx)
+//@   props C18
+//@   abstract
+//@   noinline
+//@   modifies hkAdded, hkWaited
+//@   ghostset-at-entry hkAdded = false
+//@   ghostset-at-entry hkWaited = false
+//@   ghostset after Add: hkAdded = (arg1 == 1)
+//@   assert before go: hkAdded && !hkWaited
+//@   ghostset after go: hkAdded = false
+//@   ghostset after Wait: hkWaited = true
+//@   top-ensures hkWaited
 
 // ---- C12 (dispatch): the engine runs handlers only through the chain interpreter: it installs a chain
 // (SetHandlers) and then calls Next, or goes through serveError, which does the same; it never calls a handler
